@@ -786,3 +786,215 @@ pub fn fuse_case(t: &mut Tape) -> NetCase {
     }
     NetCase { rules, tags, reqs }
 }
+
+// ---------------------------------------------------------------------------------------------
+// cosmetic rules
+
+pub const CLASSES: &[&str] = &["ad", "ads", "banner", "ad-box", "x_1", "sponsor", "a", "b1"];
+pub const IDS: &[&str] = &["ad", "top-banner", "sidebar", "x", "adv_1"];
+pub const SCRIPTLETS: &[&str] = &["set", "abort.js", "fnlet", "tmpl", "perm", "missing", "noop.js"];
+
+pub fn selector(t: &mut Tape) -> String {
+    match t.pick(14) {
+        0..=2 => format!(".{}", t.choose(CLASSES)),
+        3..=4 => format!("#{}", t.choose(IDS)),
+        5 => format!(".{} > .{}", t.choose(CLASSES), t.choose(CLASSES)),
+        6 => format!("#{} .{}", t.choose(IDS), t.choose(CLASSES)),
+        7 => format!(".{}[href^=\"http\"]", t.choose(CLASSES)),
+        8 => format!("div.{}", t.choose(CLASSES)),
+        9 => format!("a[href*=\"{}\"]", t.choose(WORDS)),
+        10 => format!(".{}:not(.{})", t.choose(CLASSES), t.choose(CLASSES)),
+        11 => "iframe[src*=\"ads\"]".to_string(),
+        12 => format!("#{}.{}", t.choose(IDS), t.choose(CLASSES)),
+        _ => format!("div > .{}", t.choose(CLASSES)),
+    }
+}
+
+pub fn cosmetic_location(t: &mut Tape, hosts: &[(String, String)]) -> String {
+    let (h, reg) = if hosts.is_empty() || t.chance(1, 6) { host(t) } else { t.choose_ref(hosts).clone() };
+    let base = match t.pick(8) {
+        0..=2 => h,
+        3..=4 => reg,
+        5 => {
+            // entity form
+            let main = reg.split('.').next().unwrap_or("x").to_string();
+            format!("{}.*", main)
+        }
+        6 => {
+            let labels: Vec<&str> = h.split('.').collect();
+            labels[labels.len().saturating_sub(3).min(labels.len() - 1)..].join(".")
+        }
+        _ => reg.splitn(2, '.').nth(1).unwrap_or("com").to_string(), // public suffix
+    };
+    if t.chance(1, 6) { format!("~{}", base) } else { base }
+}
+
+pub fn cosmetic_rule(t: &mut Tape, hosts: &[(String, String)]) -> String {
+    let nloc = [0usize, 0, 1, 1, 1, 2, 3][t.pick(7)];
+    let mut locs = vec![];
+    for _ in 0..nloc {
+        locs.push(cosmetic_location(t, hosts));
+    }
+    let loc = locs.join(",");
+    let unhide = nloc > 0 && t.chance(1, 4);
+    let sep = if unhide { "#@#" } else { "##" };
+    let body = match t.pick(12) {
+        0..=6 => selector(t),
+        7 => format!("{}:style({})", selector(t), t.choose(&["color: red", "display: block !important", "margin: 0"])),
+        8 => format!("{}:remove()", selector(t)),
+        9 => format!("{}:remove-attr({})", selector(t), t.choose(&["onclick", "href"])),
+        10 => format!("{}:remove-class({})", selector(t), t.choose(CLASSES)),
+        _ => {
+            if unhide && t.chance(1, 3) {
+                "+js()".to_string()
+            } else {
+                let name = t.choose(SCRIPTLETS);
+                let nargs = t.pick(3);
+                let mut args = vec![name.to_string()];
+                for _ in 0..nargs {
+                    args.push(t.choose(&["a", "b.c", "'x, y'", "\"q\"", "1", "foo bar", "x\\,y"]).to_string());
+                }
+                format!("+js({})", args.join(", "))
+            }
+        }
+    };
+    format!("{}{}{}", loc, sep, body)
+}
+
+/// engine-level case: network + cosmetic rules, tags, network requests, page urls, class/id sets
+#[derive(Clone, Debug, Serialize, Deserialize)]
+pub struct FullCase {
+    pub rules: Vec<String>,
+    pub tags: Vec<String>,
+    pub reqs: Vec<ReqSpec>,
+    pub pages: Vec<String>,
+    pub classes: Vec<String>,
+    pub ids: Vec<String>,
+    pub debug: bool,
+    pub optimize: bool,
+}
+
+impl crate::run::Case for FullCase {
+    fn smaller(&self) -> Vec<Self> {
+        let mut v = vec![];
+        if self.rules.len() > 3 {
+            let h = self.rules.len() / 2;
+            let mut a = self.clone();
+            a.rules.truncate(h);
+            v.push(a);
+            let mut b = self.clone();
+            b.rules.drain(..h);
+            v.push(b);
+        }
+        for i in 0..self.rules.len() {
+            let mut c = self.clone();
+            c.rules.remove(i);
+            v.push(c);
+        }
+        macro_rules! drop_each {
+            ($f:ident) => {
+                if self.$f.len() > 0 {
+                    let mut c = self.clone();
+                    c.$f.clear();
+                    v.push(c);
+                    for i in 0..self.$f.len() {
+                        let mut c = self.clone();
+                        c.$f.remove(i);
+                        v.push(c);
+                    }
+                }
+            };
+        }
+        drop_each!(reqs);
+        drop_each!(pages);
+        drop_each!(classes);
+        drop_each!(ids);
+        drop_each!(tags);
+        if self.debug {
+            let mut c = self.clone();
+            c.debug = false;
+            v.push(c);
+        }
+        if self.optimize {
+            let mut c = self.clone();
+            c.optimize = false;
+            v.push(c);
+        }
+        v
+    }
+}
+
+pub fn full_case(t: &mut Tape, cfg: &NetCfg, cosmetic_share: usize) -> FullCase {
+    let npool = 1 + t.pick(4);
+    let mut pool = vec![];
+    let mut pool_hosts = vec![];
+    for _ in 0..npool {
+        let p = url_parts(t);
+        pool_hosts.push((p.host.clone(), p.reg.clone()));
+        pool.push(p.render());
+    }
+    let nrules = 1 + t.pick(cfg.max_rules);
+    let mut rules = vec![];
+    for _ in 0..nrules {
+        if t.pick(10) < cosmetic_share {
+            rules.push(cosmetic_rule(t, &pool_hosts));
+        } else if t.chance(1, 12) {
+            // generichide exception for a pool host
+            let (h, _) = t.choose_ref(&pool_hosts).clone();
+            rules.push(format!("@@||{}^$generichide", h));
+        } else {
+            rules.push(net_rule(t, &pool, &pool_hosts, &cfg.opt));
+        }
+    }
+    let mut tags = vec![];
+    for tg in TAGS {
+        if t.chance(1, 2) {
+            tags.push(tg.to_string());
+        }
+    }
+    let nreq = 1 + t.pick(cfg.max_reqs);
+    let mut reqs = vec![];
+    for _ in 0..nreq {
+        reqs.push(request(t, &pool, &pool_hosts));
+    }
+    let mut pages = vec![];
+    for _ in 0..(1 + t.pick(3)) {
+        let (h, _) = if t.chance(1, 5) { host(t) } else { t.choose_ref(&pool_hosts).clone() };
+        let h = if t.chance(1, 4) { format!("sub.{}", h) } else { h };
+        pages.push(format!("https://{}/{}", h, word(t)));
+    }
+    let mut classes = vec![];
+    let mut ids = vec![];
+    for c in CLASSES {
+        if t.chance(1, 2) {
+            classes.push(c.to_string());
+        }
+    }
+    for c in IDS {
+        if t.chance(1, 2) {
+            ids.push(c.to_string());
+        }
+    }
+    FullCase { rules, tags, reqs, pages, classes, ids, debug: t.chance(1, 2), optimize: t.chance(1, 2) }
+}
+
+/// resources for scriptlet tests used by engine-level checks (all permission 0 except `perm`)
+pub fn scriptlet_resources() -> Vec<adblock::resources::Resource> {
+    use adblock::resources::{MimeType, PermissionMask, Resource, ResourceType};
+    let mk = |name: &str, aliases: &[&str], kind: ResourceType, content: &str, deps: &[&str], perm: u8| Resource {
+        name: name.to_string(),
+        aliases: aliases.iter().map(|s| s.to_string()).collect(),
+        kind,
+        content: b64(content),
+        dependencies: deps.iter().map(|s| s.to_string()).collect(),
+        permission: PermissionMask::from_bits(perm),
+    };
+    let mut v = std_resources();
+    v.push(mk("set.js", &["set-constant.js"], ResourceType::Mime(MimeType::ApplicationJavascript), "function setConstant(a, b) { /*MARK-set*/ }", &["dep.fn"], 0));
+    v.push(mk("dep.fn", &[], ResourceType::Mime(MimeType::FnJavascript), "function depFn() { /*MARK-dep*/ }", &[], 0));
+    v.push(mk("abort.js", &[], ResourceType::Mime(MimeType::ApplicationJavascript), "(function(){ /*MARK-abort {{1}} {{2}}*/ })();", &[], 0));
+    v.push(mk("fnlet.js", &[], ResourceType::Mime(MimeType::ApplicationJavascript), "function fnlet(x) { /*MARK-fnlet*/ }", &[], 0));
+    v.push(mk("tmpl.js2", &["tmpl"], ResourceType::Template, "/*MARK-tmpl {{1}}*/", &[], 0));
+    v.push(mk("perm", &[], ResourceType::Mime(MimeType::ApplicationJavascript), "function permlet() { /*MARK-perm*/ }", &[], 2));
+    v
+}
